@@ -356,12 +356,22 @@ func operandOf(v ssa.Value) (par *ssa.Parameter, field int, ok bool) {
 
 // spilledParam: al is the local a parameter is spilled into (exactly one store, of the parameter, in the entry block).
 func spilledParam(al *ssa.Alloc) *ssa.Parameter {
+	return spilledParamN(al, 3)
+}
+
+func spilledParamN(al *ssa.Alloc, depth int) *ssa.Parameter {
 	var par *ssa.Parameter
 	n := 0
 	for _, ref := range *al.Referrers() {
 		if st, ok := ref.(*ssa.Store); ok && st.Addr == ssa.Value(al) {
 			n++
 			par, _ = st.Val.(*ssa.Parameter)
+			// the spilled value receiver of a folded helper: a copy of the caller's own spilled parameter
+			if ld, isLoad := st.Val.(*ssa.UnOp); par == nil && isLoad && ld.Op == token.MUL && depth > 0 {
+				if src, isAl := ld.X.(*ssa.Alloc); isAl && src != al {
+					par = spilledParamN(src, depth-1)
+				}
+			}
 		}
 	}
 	if n != 1 {
